@@ -22,7 +22,6 @@ import (
 	"context"
 	"fmt"
 	"regexp"
-	"strings"
 
 	"github.com/foxcpp/maddy/framework/config"
 	"github.com/foxcpp/maddy/framework/module"
@@ -65,12 +64,10 @@ func (r *Regexp) Init(cfg *config.Map) error {
 	}
 
 	if fullMatch {
-		if !strings.HasPrefix(regex, "^") {
-			regex = "^" + regex
-		}
-		if !strings.HasSuffix(regex, "$") {
-			regex = regex + "$"
-		}
+		// Anchors bind tighter than alternation: "a|b" has to become
+		// "^(?:a|b)$", "^a|b$" matches everything that starts with a or ends
+		// with b.
+		regex = "^(?:" + regex + ")$"
 	}
 
 	if caseInsensitive {
